@@ -696,7 +696,7 @@ func relationShapeRule(P *Program, R *Report) {
 	}
 	// CommitmentsFromProof / CommitmentsFromSecrets emit mCorrect first, then cRep in order
 	for _, k := range []string{kRPCFP, kRPCFS} {
-		f := mustFunc(P, R, rule, k)
+		f := relationsHost(P, mustFunc(P, R, rule, k))
 		if f == nil {
 			continue
 		}
@@ -923,7 +923,7 @@ func rescalingRule(P *Program, R *Report, rule string) {
 // commitments that bind the square roots, on both sides alike.)
 func contributionsKeptRule(P *Program, R *Report, rule string) {
 	for _, k := range []string{kRPCFP, kRPCFS} {
-		fn := mustFunc(P, R, rule, k)
+		fn := relationsHost(P, mustFunc(P, R, rule, k))
 		if fn == nil {
 			continue
 		}
@@ -974,7 +974,7 @@ func rangeBasesHashedRule(P *Program, R *Report, rule string) {
 	}
 	place := map[string]string{}
 	for _, k := range []string{kRPCFP, kRPCFS} {
-		fn := mustFunc(P, R, rule, k)
+		fn := relationsHost(P, mustFunc(P, R, rule, k))
 		if fn == nil {
 			continue
 		}
@@ -1012,7 +1012,7 @@ func rangeBasesHashedRule(P *Program, R *Report, rule string) {
 				if !isLoad {
 					continue
 				}
-				ed := strings.NewReplacer("new:rangeproof.ProofCommit.", "<rangeproof.ProofCommit>.", "new:rangeproof.proofCommit.", "<rangeproof.proofCommit>.").Replace(e.D)
+				ed := strings.NewReplacer("new:rangeproof.ProofCommit.", "<rangeproof.ProofCommit>.", "new:rangeproof.proofCommit.", "<rangeproof.ProofCommit>.", "<rangeproof.proofCommit>.", "<rangeproof.ProofCommit>.").Replace(e.D)
 				if (e.Kind == "spread" && ed == want) || (e.Kind == "elem" && (ed == want+"[#i]" || ed == want+"[rangeindex]")) {
 					found = true
 					if firstRel != nil && deps(P, callArgs(firstRel)[2])[c] {
@@ -1026,4 +1026,26 @@ func rangeBasesHashedRule(P *Program, R *Report, rule string) {
 		R.decide(rule, k+":bases-in-challenge", "the prover-chosen bases ("+want+") are appended, unchanged, to the returned contributions", found, "appended: "+strings.Join(got, ", "), P.Pos(fn.Pos()))
 	}
 	R.decide(rule, "both-sides:same-place", "prover and verifier put the bases at the same place of the list", place[kRPCFP] != "" && place[kRPCFP] == place[kRPCFS], fmt.Sprintf("verifier: %s; prover: %s", place[kRPCFP], place[kRPCFS]), "")
+}
+
+// relationsHost: the function that makes the sub-relations' contribution calls - fn itself, or the new unexported
+// helper the assembly of the list was moved into (then the helper's result is what fn hands on).
+func relationsHost(P *Program, fn *ssa.Function) *ssa.Function {
+	has := func(f *ssa.Function) bool {
+		for _, ci := range callsIn(f) {
+			if strings.HasPrefix(calleeName(ci), "zkproof.(*QrRepresentationProofStructure).CommitmentsFrom") {
+				return true
+			}
+		}
+		return false
+	}
+	if fn == nil || has(fn) {
+		return fn
+	}
+	for _, ci := range callsIn(fn) {
+		if g := staticCallee(ci); g != nil && g.Blocks != nil && inModuleFn(g) && newHelper(g) && has(g) {
+			return g
+		}
+	}
+	return fn
 }
